@@ -500,6 +500,34 @@ Proof.
   exists []. rewrite app_nil_r. split; [exact Hl|constructor].
 Qed.
 
+(* ---------------- the code part of the store is constant along every execution *)
+Lemma sc_refl s : same_code D s s. Proof. unfold same_code; auto. Qed.
+Lemma sc_after a fa args b vs : same_code D (add_log D a (EBefore fa args)) b -> same_code D a (add_log D b (EAfter fa vs)).
+Proof. intros H. eapply same_code_trans; [apply add_log_code|]. eapply same_code_trans; [exact H|apply add_log_code]. Qed.
+Lemma sc_abort a fa args b : same_code D (add_log D a (EBefore fa args)) b -> same_code D a (add_log D b (EAbort fa)).
+Proof. intros H. eapply same_code_trans; [apply add_log_code|]. eapply same_code_trans; [exact H|apply add_log_code]. Qed.
+
+Theorem exec_same_code fuel depth ii s f is :
+  out_R D (same_code D) s (exec D host listened maxdepth fuel depth ii s f is).
+Proof.
+  refine (exec_pres D host listened maxdepth (same_code D) (fun _ _ => True)
+            sc_refl same_code_trans (fun a b H => H) (fun _ _ _ _ _ => I)
+            (fun s h args => add_log_code D s _) sc_after sc_abort
+            (fun ii s f i s' f' _ H => proj1 (step_simple_log ii s f i s' f' H))
+            (fun _ _ _ _ _ _ _ _ _ _ _ _ => I) (fun _ _ _ _ _ _ _ _ _ _ _ _ _ => I) (fun _ _ _ _ _ _ _ _ _ _ _ _ _ _ => I)
+            fuel depth ii s f is I).
+Qed.
+
+Lemma invoke_same_code fu depth s fa args :
+  ires_R D (same_code D) s
+    (invoke_with D host listened maxdepth (exec D host listened maxdepth fu) depth s fa args).
+Proof.
+  refine (invoke_R D host listened maxdepth (same_code D) (fun _ _ => True)
+            sc_refl same_code_trans (fun _ _ _ _ _ => I) (fun s h args => add_log_code D s _) sc_after sc_abort
+            (fun _ _ _ _ _ _ _ _ _ _ _ _ _ _ => I) _ depth s O fa args _ I (fun _ _ _ _ _ _ => I)).
+  intros d ii x f is _. apply exec_same_code.
+Qed.
+
 Theorem exec_bracketed fuel depth ii s f is :
   out_R D brk_R s (exec D host listened maxdepth fuel depth ii s f is).
 Proof.
